@@ -1,51 +1,77 @@
 (* C14 (stretch) — THE TABLE OF PANIC SITES (types and legend:
-   model/UntrustedPanicSites.v).  Every CModel / CLemma entry carries the
-   proposition that covers the site and its proof term: the table type-checks
-   only if the theorem exists and states what is written here.  CArgued,
-   CStdlib and CHarnessOnly entries carry NO theorem (prose only) and are
-   counted as such by panic_site_coverage_counts.  The list of sites is
-   hand-made; Coq checks the coverage column, not the completeness of the list. *)
+   model/UntrustedPanicSites.v).  The list of sites is HAND-MADE (a site the
+   reading missed is not in it); Coq checks the coverage column, and only for
+   the two constructors of fixed shape:
+     CModel op w f pf      op CAN panic (w), the model function f that performs
+                           it behind the guard never does (pf)
+     CLemma raw w guard pf the as-written site WITHOUT its guard can panic (w),
+                           under the guard it cannot (pf)
+   CArgued / CStdlib / CHarnessOnly entries carry NO theorem; lemma or theorem
+   names inside their text are pointers for the reader, not checked. *)
 From Coq Require Import String List NArith ZArith.
 From Tink Require Import Bytes UntrustedConsts Untrusted UntrustedSpec UntrustedProofs.
 From Tink Require Import UntrustedSites UntrustedSitesProofs UntrustedPanicSites.
 Import ListNotations.
 Open Scope string_scope.
 
+(* a standard library that answers nothing (only needed to exhibit a panicking input) *)
+Definition std_none : stdlib :=
+  mkStd (fun _ _ => false) (fun _ _ => None) (fun _ => []) (fun _ _ => None) (fun _ _ => [])
+        (fun _ _ _ _ _ => None) (fun _ _ _ _ _ _ _ _ => false) (fun _ _ => []).
+
+(* parse a key, then build its primitive: never panics *)
+Lemma parse_then_prim_total L kd prefix idreq :
+  bind (parse_key L kd prefix idreq) (prim_ok L) <> Panic.
+Proof.
+  destruct (parse_key L kd prefix idreq) as [d| |] eqn:E; cbn [bind]; try discriminate.
+  - exact (parse_then_prim_np L kd prefix idreq d E).
+  - exfalso. exact (parse_key_np L kd prefix idreq E).
+Qed.
+
+Lemma encode_point_go_np x y c : zlen x = c -> zlen y = c -> encode_point_go x y c <> Panic.
+Proof. intros Hx Hy. rewrite (encode_point_go_ok x y c Hx Hy). discriminate. Qed.
+
+Lemma jwt_ecdsa_parsers_np (p : bool * stdlib * keydata * N * N) :
+  (let '(priv, L, kd, prefix, idreq) := p in
+   if priv then parse_jwt_ecdsa_priv L kd prefix idreq else parse_jwt_ecdsa_pub L kd prefix idreq) <> Panic.
+Proof.
+  destruct p as [[[[priv L] kd] prefix] idreq]. destruct priv.
+  - apply parse_jwt_ecdsa_priv_np.
+  - apply parse_jwt_ecdsa_pub_np.
+Qed.
+
 Definition panic_sites : list site := [
-  (* ---------------- keyset layer ---------------- *)
   mkSite "keyset/validation.go" "Validate" "keyset.Key, keyset.PrimaryKeyId (direct field access)" KNilDeref
     "if keyset == nil { return error } (first statement)"
-    (CModel (validate None = false /\ (forall L, read_proto L None = Err) /\ forall L ks, read_proto L ks <> Panic)
-            (conj eq_refl (conj (fun _ => eq_refl) read_proto_np)));
+    (CArgued "the model's validate is a total boolean function (validate None = false); no Panic constructor to reach");
   mkSite "keyset/validation.go" "Validate" "key.KeyId, key.Status in the loop over keyset.Key" KNilDeref
     "validateKey(key) returns an error for key == nil before any field is read"
-    (CModel (forall ks, (In None (ks_keys ks) \/ exists pk, In (Some pk) (ks_keys ks) /\ k_data pk = None) ->
-                        validate (Some ks) = false) nil_parts_rejected);
+    (CArgued "total in the model (ks_keys : list (option pkey); theorem C14_nil_parts_rejected says nil keys / nil key data are rejected)");
   mkSite "keyset/validation.go" "validateKey" "key.KeyData, key.OutputPrefixType, key.Status" KNilDeref
     "if key == nil { return error }"
-    (CModel (forall ks, validate (Some ks) = true <-> wf_keyset ks) validate_iff);
+    (CArgued "as above");
   mkSite "keyset/validation.go" "Validate" "keyIDs[key.KeyId] = true (map write)" KNilDeref
     "keyIDs := make(map[uint32]bool) four lines above"
     (CArgued "the map is allocated unconditionally");
   mkSite "keyset/handle.go" "keysetToEntries" "entries := make([]*Entry, len(ks.GetKey())); entries[i] = ..." KMake
     "Validate(ks) succeeded (ks non-nil); i ranges over the same slice"
-    (CModel (forall L primary keys, to_entries L primary keys <> Panic) to_entries_np);
+    (CArgued "range loop over the allocated length; the size is a len()");
   mkSite "keyset/handle.go" "keysetToEntries" "protoKey.GetKeyData(), GetKeyId(), GetOutputPrefixType(), GetStatus()" KNilDeref
     "generated getters are nil safe; Validate already rejected nil keys and nil key data"
-    (CModel (forall L primary k, to_entry L primary k <> Panic) to_entry_np);
+    (CArgued "getters; total in the model");
   mkSite "keyset/handle.go" "hasSecrets" "protoKey.GetKeyData().GetKeyMaterialType() inside slices.ContainsFunc(ks.GetKey(), ...)" KNilDeref
     "getters only (ks, protoKey and KeyData may all be nil)"
-    (CModel ((forall L ks, handle_no_secrets L ks <> Panic) /\ forall L b, read_no_secrets L b <> Panic)
-            (conj handle_no_secrets_np read_no_secrets_np));
+    (CArgued "getters; has_secrets is a total boolean function of the model");
   mkSite "keyset/handle.go" "newFromEntries" "entry.IsPrimary(), entry.KeyStatus(), entry.KeyID() on each entry" KNilDeref
     "entries come from keysetToEntries: every element was assigned newUnmonitoredEntry(...)"
-    (CModel (forall es, new_from_entries es <> Panic) new_from_entries_np);
+    (CArgued "values tink-go built itself");
   mkSite "keyset/handle.go" "decrypt / decryptWithContext" "encryptedKeyset.GetEncryptedKeyset(); keyEncryptionAEAD.Decrypt(...)" KNilDeref
     "if encryptedKeyset == nil || keyEncryptionAEAD == nil { return error }"
-    (CModel (forall L kek b ad, read_encrypted L kek b ad <> Panic) read_encrypted_np);
+    (CArgued "nil test two lines above; the model's read_encrypted has no Panic constructor for it");
   mkSite "keyset/handle.go" "Handle.Entry" "h.entries[i]" KIndex
     "if h == nil { error }; if i < 0 || i >= h.Len() { error }"
-    (CLemma (forall (entries : list entry) i, entry_go entries i <> Panic) (@entry_go_np entry));
+    (CLemma (fun p : list entry * Z => entry_raw (fst p) (snd p)) (ex_intro _ ([], 0%Z) eq_refl)
+            (fun p => (0 <= snd p < Z.of_nat (length (fst p)))%Z) (fun p => entry_raw_np (fst p) (snd p)));
   mkSite "keyset/handle.go" "Handle.Primary / Len / Public" "h.primaryKeyEntry, h.entries" KNilDeref
     "if h == nil { return error / 0 }"
     (CArgued "a handle returned by a reader is non-nil whenever err == nil");
@@ -54,93 +80,110 @@ Definition panic_sites : list site := [
     (CArgued "range loop over the allocated length");
   mkSite "keyset/handle.go" "Handle.KeysetInfo" "panic(err) when entriesToKeysetInfo fails" KExplicitPanic
     "entries non-empty (newFromEntries found a primary); keyStatusToProto fails only for Unknown, rejected by newFromEntries; protoserialization.SerializeKey(entry.Key()) must succeed for every key a parser accepted"
-    (CHarnessOnly "c14.go calls h.KeysetInfo() and h.Public() on EVERY accepted handle of every case; no model of the 37 serializers on this path");
+    (CHarnessOnly "c14.go calls h.KeysetInfo() and h.Public() on EVERY accepted handle of every case; no model of the serializers on this path");
   mkSite "keyset/handle.go" "getKeysetInfo / getKeyInfo" "panic(nil keyset); key.KeyData.TypeUrl (direct)" KExplicitPanic
     "only called from encrypt() with the keyset built by entriesToProtoKeyset from a live handle"
     (CArgued "write path: the keyset is produced by tink-go, not read from input");
   mkSite "insecurecleartextkeyset/insecurecleartextkeyset.go" "Read" "len(ks.Key)" KNilDeref
     "if r == nil { error }; err != nil || ks == nil || len(ks.Key) == 0 (short-circuit order)"
-    (CModel ((forall L, read_proto L None = Err) /\ forall L ks, read_proto L ks <> Panic)
-            (conj (fun _ => eq_refl) read_proto_np));
+    (CArgued "nil test in the same condition, evaluated first");
   mkSite "keyset/binary_io.go, keyset/json_io.go" "BinaryReader.Read / JSONReader.Read" "proto.Unmarshal / protojson.Unmarshal on arbitrary bytes" KStdlib
     "none needed: the libraries return errors"
     (CStdlib "protobuf-go wire decoder and protojson do not panic on any input (transcribed as fields / wire_ok / utf8_valid and compared on every case; length prefixes of 2^31-1 in gen6.go)");
-  (* ---------------- internal/protoserialization ---------------- *)
   mkSite "internal/protoserialization/protoserialization.go" "ParseKey" "keySerialization.KeyData().GetTypeUrl() / GetKeyMaterialType()" KNilDeref
     "keySerialization is the non-nil result of NewKeySerialization; KeyData() getters are nil safe"
-    (CModel (forall L kd prefix idreq, parse_key L kd prefix idreq <> Panic) parse_key_np);
+    (CArgued "getters");
   mkSite "internal/protoserialization/protoserialization.go" "KeySerialization.clone" "proto.Clone(k.keyData).(*tinkpb.KeyData)" KTypeAssert
     "proto.Clone returns a message of the dynamic type of its argument (also for a typed nil pointer)"
     (CArgued "the asserted type is the static type of the argument");
   mkSite "internal/protoserialization/protoserialization.go" "FallbackProtoPrivateKey.PublicKey" "keyManager.(registry.PrivateKeyManager) with ', ok'" KTypeAssert
-    "two-value form" (CArgued "checked assertion");
+    "two-value form"
+    (CArgued "checked assertion");
   mkSite "internal/protoserialization/protoserialization.go" "NewFallbackProtoKey" "calculateOutputPrefix(outputPrefixType, id)" KStdlib
     "default: return error for an unknown prefix type (Validate rejected it before)"
-    (CModel (forall L kd prefix idreq, parse_key L kd prefix idreq <> Panic) parse_key_np);
-  (* ---------------- helpers ---------------- *)
+    (CArgued "returns an error; no panic in the function");
   mkSite "internal/ec/ec.go" "BigIntBytesToFixedSizeBuffer" "make([]byte, size-len(bigIntBytes), size)" KMake
     "if len(bigIntBytes) < size (so 0 < size-len <= size); callers pass size = 32/48/66 or +1"
-    (CLemma (forall b size, (0 <= size)%Z -> fixed_size_go b size <> Panic) fixed_size_go_np);
+    (CLemma (fun p : bytes * Z => fixed_size_go (fst p) (snd p)) (ex_intro _ ([0%N], (-1)%Z) eq_refl)
+            (fun p => (0 <= snd p)%Z) (fun p => fixed_size_go_np (fst p) (snd p)));
   mkSite "internal/ec/ec.go" "BigIntBytesToFixedSizeBuffer" "bigIntBytes[i] for i < len(bigIntBytes)-size" KIndex
     "reached only when len(bigIntBytes) > size >= 0, so 0 <= i < len"
-    (CLemma ((forall b size, (0 <= size)%Z -> fixed_size_go b size <> Panic) /\
-             forall b n, fixed_size_go b (Z.of_nat n) = fixed_size b n)
-            (conj fixed_size_go_np fixed_size_go_is_model));
+    (CLemma (fun p : bytes * Z => fixed_size_go (fst p) (snd p)) (ex_intro _ ([0%N], (-1)%Z) eq_refl)
+            (fun p => (0 <= snd p)%Z) (fun p => fixed_size_go_np (fst p) (snd p)));
   mkSite "internal/ec/ec.go" "BigIntBytesToFixedSizeBuffer" "bigIntBytes[len(bigIntBytes)-size:]" KSlice
     "len(bigIntBytes) > size >= 0"
-    (CModel (forall b n, fixed_size b n <> Panic) fixed_size_np);
+    (CModel (fun q : nat * nat * bytes => slice (fst (fst q)) (snd (fst q)) (snd q)) (ex_intro _ (1%nat, 0%nat, []) eq_refl)
+            (fun p : bytes * nat => fixed_size (fst p) (snd p)) (fun p => fixed_size_np (fst p) (snd p)));
   mkSite "internal/outputprefix/outputprefix.go" "Tink / Legacy" "binary.BigEndian.PutUint32(prefix[1:], id)" KSlice
-    "prefix := make([]byte, 5): constant size" (CArgued "constant bounds");
+    "prefix := make([]byte, 5): constant size"
+    (CArgued "constant bounds");
   mkSite "internal/signature/rsa.go" "ValidateRSAPublicKeyParams" "int(e.Int64())" KIntConv
     "if !e.IsInt64() { return error } (commit 067e856)"
-    (CLemma (forall e v, rsa_exponent e = Some v -> v = be_val e /\ (v < 9223372036854775808)%N) rsa_exponent_fits_int64);
+    (CArgued "integer conversion: truncates, does not panic; lemma rsa_exponent_fits_int64 (the conversion is reached only below 2^63) and theorem C14_rsa_exponent_truncation_rejected, named here, not checked by the table");
   mkSite "internal/signature/rsa.go" "Pad" "make([]byte, encodingLength); padded[encodingLength-len(toPad):]" KSlice
     "if len(toPad) > encodingLength { error }; == returns early"
     (CArgued "serialisation path of an accepted key; encodingLength is a byte length of the modulus");
-  (* ---------------- ECDSA ---------------- *)
   mkSite "signature/ecdsa/protoserialization.go" "encodePoint" "make([]byte, 1+2*coordinateSize); encodedPoint[0] = 0x04" KMake
     "coordinateSize in {32, 48, 66} (coordinateSizeForCurve errors otherwise)"
-    (CLemma (forall x y c, zlen x = c -> zlen y = c -> encode_point_go x y c = Ok (4%N :: x ++ y)) encode_point_go_ok);
+    (CLemma (fun p : bytes * bytes * Z => encode_point_go (fst (fst p)) (snd (fst p)) (snd p))
+            (ex_intro _ ([1; 2; 3; 4]%N, [5%N], 2%Z) eq_refl)
+            (fun p => zlen (fst (fst p)) = snd p /\ zlen (snd (fst p)) = snd p)
+            (fun p g => encode_point_go_np _ _ _ (proj1 g) (proj2 g)));
   mkSite "signature/ecdsa/protoserialization.go" "encodePoint" "encodedPoint[xStartPos:], encodedPoint[yStartPos:] with xStartPos = 1+c-len(x)" KSlice
     "x, y are results of BigIntBytesToFixedSizeBuffer(., c): exactly c bytes"
-    (CLemma (forall bx by_ (c : nat) x y,
-               fixed_size_go bx (Z.of_nat c) = Ok x -> fixed_size_go by_ (Z.of_nat c) = Ok y ->
-               encode_point_go x y (Z.of_nat c) = Ok (4%N :: x ++ y)) encode_point_after_fixed_size_np);
-  mkSite "signature/ecdsa/protoserialization.go" "newPublicKeyFromProto" "the whole body: version, params getters, two fixed-size buffers, encodePoint, NewPublicKey" KSlice
+    (CLemma (fun p : bytes * bytes * Z => encode_point_go (fst (fst p)) (snd (fst p)) (snd p))
+            (ex_intro _ ([1; 2; 3; 4]%N, [5%N], 2%Z) eq_refl)
+            (fun p => zlen (fst (fst p)) = snd p /\ zlen (snd (fst p)) = snd p)
+            (fun p g => encode_point_go_np _ _ _ (proj1 g) (proj2 g)));
+  mkSite "signature/ecdsa/protoserialization.go" "newPublicKeyFromProto" "encodePoint(x, y, c) after two BigIntBytesToFixedSizeBuffer(., c)" KSlice
     "as above"
-    (CModel (forall L fs prefix idreq, ecdsa_pub_of L fs prefix idreq <> Panic) ecdsa_pub_of_np);
+    (CModel (fun q : bytes * bytes * nat => encode_point (fst (fst q)) (snd (fst q)) (snd q))
+            (ex_intro _ ([1; 2; 3; 4]%N, [5%N], 2%nat) eq_refl)
+            (fun p : stdlib * list field * N * N => ecdsa_pub_of (fst (fst (fst p))) (snd (fst (fst p))) (snd (fst p)) (snd p))
+            (fun p => ecdsa_pub_of_np _ _ _ _));
   mkSite "signature/ecdsa/protoserialization.go" "newPublicKeyFromProto" "protoECDSAKey.GetParams().GetCurve() etc. (nil params sub-message)" KNilDeref
     "getters"
-    (CModel (forall n k, get_u32 k (get_sub n []) = 0%N /\ get_len k (get_sub n []) = [] /\
-                         get_sub k (get_sub n []) = [] /\ has_sub k (get_sub n []) = false)
-            absent_submessage_reads_as_defaults);
-  mkSite "signature/ecdsa/protoserialization.go" "createProtoECDSAPublicKey (serializer)" "publicPoint[1:], xy[:coordinateSize], xy[coordinateSize:]" KSlice
-    "the key was built by NewPublicKey, which validated the point with crypto/ecdh: len = 1+2c"
-    (CLemma (forall pt c, (0 <= c)%Z -> zlen pt = (1 + 2 * c)%Z -> point_coords_go pt c <> Panic) point_coords_go_np);
+    (CArgued "getters are total in the model: lemma absent_submessage_reads_as_defaults (an absent sub-message reads as all defaults), named here, not checked by the table");
+  mkSite "signature/ecdsa/protoserialization.go:130" "validateEncodingAndGetCoordinates (serializer)" "publicPoint[0] != 0x04" KIndex
+    "if len(publicPoint) != 2*coordinateSize+1 { return error } (the statement before; coordinateSize in {32,48,66})"
+    (CLemma (fun p : bytes * Z => first_byte (fst p)) (ex_intro _ ([], 0%Z) eq_refl)
+            (fun p => (0 <= snd p)%Z /\ zlen (fst p) = (2 * snd p + 1)%Z)
+            (fun p g => first_byte_np _ _ (proj1 g) (proj2 g)));
+  mkSite "signature/ecdsa/protoserialization.go:133" "validateEncodingAndGetCoordinates (serializer)" "publicPoint[1:], xy[:coordinateSize], xy[coordinateSize:]" KSlice
+    "if len(publicPoint) != 2*coordinateSize+1 { return error } (same test)"
+    (CLemma (fun p : bytes * Z => point_coords_go (fst p) (snd p)) (ex_intro _ ([], 0%Z) eq_refl)
+            (fun p => (0 <= snd p)%Z /\ zlen (fst p) = (1 + 2 * snd p)%Z)
+            (fun p g => point_coords_go_np _ _ (proj1 g) (proj2 g)));
   mkSite "signature/ecdsa/signer.go, verifier.go" "NewSigner / NewVerifier" "publicPoint[1:], xy[:len(xy)/2], xy[len(xy)/2:]" KSlice
     "NewPublicKey validated the point (len >= 1)"
-    (CModel (forall L kd prefix idreq d, parse_key L kd prefix idreq = Ok d -> prim_ok L d <> Panic) parse_then_prim_np);
+    (CModel ecdsa_point_slices (ex_intro _ [] eq_refl)
+            (fun p : stdlib * keydata * N * N => bind (parse_key (fst (fst (fst p))) (snd (fst (fst p))) (snd (fst p)) (snd p)) (prim_ok (fst (fst (fst p)))))
+            (fun p => parse_then_prim_total _ _ _ _));
   mkSite "signature/ecdsa/key.go" "NewPublicKey / NewPrivateKeyFromPublicKey" "ecdh curve.NewPublicKey(point), curve.NewPrivateKey(scalar)" KStdlib
     "none needed: crypto/ecdh returns errors for wrong lengths, off-curve points, the point at infinity, out-of-range scalars"
     (CStdlib "ec_point_ok / ec_pub_of_priv of the record stdlib (oracle ops c14_ecdh_point, c14_ecdh_pub)");
-  (* ---------------- Ed25519 ---------------- *)
   mkSite "signature/ed25519/key.go" "NewPrivateKey / NewPrivateKeyWithPublicKey" "ed25519.NewKeyFromSeed(seed) (panics unless len(seed) == 32)" KStdlib
     "if privateKeyBytes.Len() != 32 { return error }; if pubKey == nil { return error }"
-    (CModel (forall L kd prefix idreq, parse_ed25519_priv L kd prefix idreq <> Panic) parse_ed25519_priv_np);
+    (CModel (fun q : stdlib * bytes => ed25519_from_seed (fst q) (snd q)) (ex_intro _ (std_none, []) eq_refl)
+            (fun p : stdlib * keydata * N * N => parse_ed25519_priv (fst (fst (fst p))) (snd (fst (fst p))) (snd (fst p)) (snd p))
+            (fun p => parse_ed25519_priv_np _ _ _ _));
   mkSite "signature/ed25519/key.go" "NewPrivateKey" "privKey.Public().(ed25519.PublicKey)" KTypeAssert
-    "ed25519.PrivateKey.Public always returns ed25519.PublicKey" (CArgued "documented dynamic type");
+    "ed25519.PrivateKey.Public always returns ed25519.PublicKey"
+    (CArgued "documented dynamic type");
   mkSite "signature/ed25519/signer.go" "NewSigner" "ed25519.NewKeyFromSeed(privateKey.PrivateKeyBytes())" KStdlib
     "a *PrivateKey only exists with a 32-byte seed (constructors above)"
-    (CModel (forall L kd prefix idreq d, parse_key L kd prefix idreq = Ok d -> prim_ok L d <> Panic) parse_then_prim_np);
-  (* ---------------- RSA ---------------- *)
-  mkSite "signature/rsassapkcs1, rsassapss, jwt/jwtrsassapkcs1, jwt/jwtrsassapss protoserialization.go" "parsePublicKey / ParseKey" "int(exponent.Int64())" KIntConv
+    (CModel (fun q : stdlib * bytes => ed25519_from_seed (fst q) (snd q)) (ex_intro _ (std_none, []) eq_refl)
+            (fun p : stdlib * keydata * N * N => bind (parse_key (fst (fst (fst p))) (snd (fst (fst p))) (snd (fst p)) (snd p)) (prim_ok (fst (fst (fst p)))))
+            (fun p => parse_then_prim_total _ _ _ _));
+  mkSite "signature/rsassapkcs1, rsassapss, jwt/jwtrsassapkcs1, jwt/jwtrsassapss protoserialization.go" "parsePublicKey / ParseKey" "int(exponent.Int64()) (four files, same statement)" KIntConv
     "if !exponent.IsInt64() { return error }"
-    (CModel (forall L, ~ strength_ok rsa_trunc_kd /\ parse_key L rsa_trunc_kd pt_tink 7 = Err) rsa_exponent_truncation_rejected);
+    (CArgued "integer conversion: truncates, does not panic; lemma rsa_exponent_fits_int64 and the single regression vector of theorem C14_rsa_exponent_truncation_rejected (one key type), named here, not checked by the table; the four parsers are compared with the model on the directed exponent grid of gen.go");
   mkSite "signature/rsassapss/protoserialization.go" "ParseKey" "int(protoKey.GetParams().GetSaltLength()) (int32 field, may be negative)" KIntConv
     "NewParameters: SaltLengthBytes < 0 is an error"
-    (CLemma (forall v, (0 <= v <= u32_max)%Z -> (0 <? int_of_i32field v)%Z = int32_positive (Z.to_N v)) int32_positive_is_go);
+    (CArgued "integer conversion: wraps, does not panic; the comparison that follows is theorem C14_wrapping_conversions_are_rejected / lemma int32_positive_is_go (named here, not checked by the table)");
   mkSite "signature/rsassa*/key.go, jwt/jwtrsassa*/key.go" "NewPublicKey" "new(big.Int).SetBytes(modulus).BitLen()" KBigInt
-    "SetBytes / BitLen are total" (CArgued "total functions of math/big");
+    "SetBytes / BitLen are total"
+    (CArgued "total functions of math/big");
   mkSite "signature/rsassa*/key.go, jwt/jwtrsassa*/key.go" "NewPrivateKey" "publicKey.parameters (publicKey may be nil for API callers)" KNilDeref
     "on the parse path publicKey is the non-nil result of NewPublicKey (err checked)"
     (CArgued "parser passes a checked value");
@@ -151,125 +194,120 @@ Definition panic_sites : list site := [
     "NewPrivateKey returned only after Validate() == nil, and in Go >= 1.24 Validate runs the same precompute and returns its error"
     (CStdlib "rsa_crt = Some (dp, dq, qinv) exactly when Validate succeeds");
   mkSite "signature/rsassa*/key.go" "privateKeySelfCheck" "signer.Sign / verifier.Verify on the fresh key" KStdlib
-    "errors are returned" (CStdlib "rsa_selfcheck (oracle op c14_rsa_selfcheck)");
-  (* ---------------- SLH-DSA / ML-DSA ---------------- *)
+    "errors are returned"
+    (CStdlib "rsa_selfcheck (oracle op c14_rsa_selfcheck)");
   mkSite "signature/slhdsa/protoserialization.go" "ParseKey" "int(protoKey.GetParams().GetKeySize()) (int32 field)" KIntConv
     "NewParameters accepts only the listed (hash, key size, sig type) combinations"
-    (CModel (forall kd prefix idreq, parse_slhdsa_pub kd prefix idreq <> Panic) parse_slhdsa_pub_np);
+    (CArgued "integer conversion: does not panic; the value is compared with 64 / 96 / 128");
   mkSite "internal/signature/slhdsa/slhdsa.go" "DecodePublicKey" "pkEnc[0:p.n], pkEnc[p.n:2*p.n]" KSlice
     "if len(pkEnc) != p.PublicKeyLength() { return error }"
-    (CLemma (forall n b, (0 <= n)%Z -> slh_decode_pk_go n b <> Panic /\ slh_decode_sk_go n b <> Panic) slh_decode_go_np);
+    (CLemma (fun p : Z * bytes => slh_pk_slices (fst p) (snd p)) (ex_intro _ (1%Z, []) eq_refl)
+            (fun p => zlen (snd p) = (2 * fst p)%Z) (fun p => slh_pk_slices_np (fst p) (snd p)));
   mkSite "internal/signature/slhdsa/slhdsa.go" "DecodeSecretKey" "skEnc[0:n], [n:2n], [2n:3n], [3n:4n]" KSlice
     "if len(skEnc) != p.SecretKeyLength() { return error }"
-    (CModel (forall kd prefix idreq, parse_slhdsa_priv kd prefix idreq <> Panic) parse_slhdsa_priv_np);
+    (CModel (fun q : nat * nat * bytes => slice (fst (fst q)) (snd (fst q)) (snd q)) (ex_intro _ (1%nat, 0%nat, []) eq_refl)
+            (fun p : keydata * N * N => parse_slhdsa_priv (fst (fst p)) (snd (fst p)) (snd p)) (fun p => parse_slhdsa_priv_np _ _ _));
   mkSite "signature/mldsa/key.go, jwt/jwtmldsa/key.go" "NewPublicKey" "checkPublicKeyLengthForInstance(len(keyBytes), instance)" KStdlib
     "length compared before DecodePublicKey"
-    (CModel ((forall kd prefix idreq, parse_mldsa_pub kd prefix idreq <> Panic) /\
-             forall kd prefix idreq, parse_jwt_mldsa_pub kd prefix idreq <> Panic)
-            (conj parse_mldsa_pub_np parse_jwt_mldsa_pub_np));
-  (* ---------------- ECIES / HPKE ---------------- *)
+    (CArgued "length test in front of the decoder; the model's parser has no Panic constructor");
   mkSite "hybrid/ecies/protoserialization.go" "parseParameters" "proto.Clone(protoParams.GetDemParams().GetAeadDem()).(*tinkpb.KeyTemplate); demTemplate.OutputPrefixType = RAW" KTypeAssert
     "if GetDemParams() == nil { error }; if GetAeadDem() == nil { error } (two lines above)"
-    (CModel (forall L kd prefix idreq, parse_ecies_pub L kd prefix idreq <> Panic) parse_ecies_pub_np);
+    (CArgued "nil tests two lines above (has_sub in the model); Clone keeps the dynamic type; exercised by nil injections site-nil in gen6.go");
   mkSite "hybrid/ecies/protoserialization.go" "parseParameters" "protoserialization.ParseParameters(demTemplate) on an attacker-chosen template (any registered type URL, any value)" KStdlib
     "every parameters parser returns errors; NewParameters accepts only six DEM parameter sets"
     (CHarnessOnly "the model rejects every template outside the six accepted ones WITHOUT transcribing the other parameters parsers; exercised by gen3.go demTemplate and gen6.go (every field of the DEM template of the bank's ECIES keys)");
-  mkSite "hybrid/ecies/protoserialization.go" "parsePublicKey" "slices.Concat([]byte{0x04}, x, y)" KSlice
+  mkSite "hybrid/ecies/protoserialization.go" "parsePublicKey" "BigIntBytesToFixedSizeBuffer(x / y, c); slices.Concat([]byte{0x04}, x, y)" KSlice
     "x, y from BigIntBytesToFixedSizeBuffer"
-    (CModel (forall L fs prefix idreq, ecies_pub_of L fs prefix idreq <> Panic) ecies_pub_of_np);
+    (CModel (fun q : nat * nat * bytes => slice (fst (fst q)) (snd (fst q)) (snd q)) (ex_intro _ (1%nat, 0%nat, []) eq_refl)
+            (fun p : stdlib * list field * N * N => ecies_pub_of (fst (fst (fst p))) (snd (fst (fst p))) (snd (fst p)) (snd p))
+            (fun p => ecies_pub_of_np _ _ _ _));
   mkSite "hybrid/ecies/protoserialization.go" "ParseKey (private)" "publicKey.Parameters().(*Parameters).CurveType()" KTypeAssert
     "publicKey was built by this package's NewPublicKey with a *Parameters"
     (CArgued "static construction");
-  mkSite "hybrid/ecies/protoserialization.go" "ParseKey (private)" "BigIntBytesToFixedSizeBuffer(privateKeyBytes, coordinateSize); NewPrivateKeyFromPublicKey" KSlice
+  mkSite "hybrid/ecies/protoserialization.go" "ParseKey (private)" "BigIntBytesToFixedSizeBuffer(privateKeyBytes, coordinateSize)" KSlice
     "as above"
-    (CModel (forall L kd prefix idreq, parse_ecies_priv L kd prefix idreq <> Panic) parse_ecies_priv_np);
-  mkSite "hybrid/ecies/protoserialization.go" "publicKeyToProtoPublicKey (serializer)" "publicKey.PublicKeyBytes()[1:], xy[:coordinateSize], xy[coordinateSize:]" KSlice
-    "NIST-curve key bytes are 0x04 || x || y with |x| = |y| = c by construction"
-    (CLemma (forall pt c, (0 <= c)%Z -> zlen pt = (1 + 2 * c)%Z -> point_coords_go pt c <> Panic) point_coords_go_np);
+    (CModel (fun q : nat * nat * bytes => slice (fst (fst q)) (snd (fst q)) (snd q)) (ex_intro _ (1%nat, 0%nat, []) eq_refl)
+            (fun p : stdlib * keydata * N * N => parse_ecies_priv (fst (fst (fst p))) (snd (fst (fst p))) (snd (fst p)) (snd p))
+            (fun p => parse_ecies_priv_np _ _ _ _));
+  mkSite "hybrid/ecies/protoserialization.go:185" "publicKeyToProtoPublicKey (serializer)" "publicKey.PublicKeyBytes()[0] != 0x04" KIndex
+    "if len(publicKey.PublicKeyBytes()) != 2*coordinateSize+1 { return error } (the statement before)"
+    (CLemma (fun p : bytes * Z => first_byte (fst p)) (ex_intro _ ([], 0%Z) eq_refl)
+            (fun p => (0 <= snd p)%Z /\ zlen (fst p) = (2 * snd p + 1)%Z)
+            (fun p g => first_byte_np _ _ (proj1 g) (proj2 g)));
+  mkSite "hybrid/ecies/protoserialization.go:188" "publicKeyToProtoPublicKey (serializer)" "publicKey.PublicKeyBytes()[1:], xy[:coordinateSize], xy[coordinateSize:]" KSlice
+    "if len(publicKey.PublicKeyBytes()) != 2*coordinateSize+1 { return error } (same test)"
+    (CLemma (fun p : bytes * Z => point_coords_go (fst p) (snd p)) (ex_intro _ ([], 0%Z) eq_refl)
+            (fun p => (0 <= snd p)%Z /\ zlen (fst p) = (1 + 2 * snd p)%Z)
+            (fun p g => point_coords_go_np _ _ (proj1 g) (proj2 g)));
+  mkSite "hybrid/ecies (primitive constructor)" "NewHybridEncrypt" "xy := PublicKeyBytes()[1:]; xy[:coordinateSize]; xy[coordinateSize:]" KSlice
+    "NewPublicKey validated the point"
+    (CModel (fun q : nat * nat * bytes => slice (fst (fst q)) (snd (fst q)) (snd q)) (ex_intro _ (1%nat, 0%nat, []) eq_refl)
+            (fun p : stdlib * keydata * N * N => bind (parse_key (fst (fst (fst p))) (snd (fst (fst p))) (snd (fst p)) (snd p)) (prim_ok (fst (fst (fst p)))))
+            (fun p => parse_then_prim_total _ _ _ _));
   mkSite "hybrid/ecies/parameters.go" "package-level DEM parameter table" "panic(failed to create ... parameters)" KExplicitPanic
-    "arguments are constants" (CArgued "no input");
+    "arguments are constants"
+    (CArgued "no input");
   mkSite "hybrid/hpke/key.go" "NewPublicKey" "parameters.Variant() (nil *Parameters for API callers)" KNilDeref
     "parser passes the result of parseParameters (err checked)"
     (CArgued "parser passes a checked value");
-  mkSite "hybrid/hpke/protoserialization.go, key.go" "ParseKey (public / private)" "the whole bodies" KNilDeref
-    "getters; length tests"
-    (CModel ((forall L kd prefix idreq, parse_hpke_pub L kd prefix idreq <> Panic) /\
-             forall L kd prefix idreq, parse_hpke_priv L kd prefix idreq <> Panic)
-            (conj parse_hpke_pub_np parse_hpke_priv_np));
   mkSite "hybrid/hpke/key.go" "validateXWingPublicKey / validateMLKEMPublicKey / NewPrivateKeyFromPublicKey" "mlkem.NewDecapsulationKey768/1024(seed), xwing.PublicFromSecret(sk)" KStdlib
     "both return errors for a wrong length (xwing: len != 32 checked first)"
     (CStdlib "mlkem_pub / xwing_pub of the record stdlib");
   mkSite "hybrid/internal/xwing/xwing.go" "Encapsulate / Decapsulate" "publicKey[:1184], publicKey[1184:]; ciphertext[:1088], ciphertext[1088:]" KSlice
     "if len(publicKey) != 1216 { error }; if len(ciphertext) != 1120 { error }"
     (CArgued "constant bounds behind an exact length test (use path, not parse path)");
-  (* ---------------- JWT ---------------- *)
-  mkSite "jwt/jwtecdsa/protoserialization.go" "ParseKey" "BigIntBytesToFixedSizeBuffer(x, c), slices.Concat(0x04, x, y)" KSlice
+  mkSite "jwt/jwtecdsa/protoserialization.go" "ParseKey (public / private)" "BigIntBytesToFixedSizeBuffer(x / y / key, c), slices.Concat(0x04, x, y)" KSlice
     "as ECDSA"
-    (CModel ((forall L kd prefix idreq, parse_jwt_ecdsa_pub L kd prefix idreq <> Panic) /\
-             forall L kd prefix idreq, parse_jwt_ecdsa_priv L kd prefix idreq <> Panic)
-            (conj parse_jwt_ecdsa_pub_np parse_jwt_ecdsa_priv_np));
-  mkSite "jwt/jwtecdsa/protoserialization.go" "serializer" "k.PublicPoint()[1:], xy[:coordinateSize], xy[coordinateSize:]" KSlice
-    "NewPublicKey validated the point with crypto/ecdh"
-    (CLemma (forall pt c, (0 <= c)%Z -> zlen pt = (1 + 2 * c)%Z -> point_coords_go pt c <> Panic) point_coords_go_np);
+    (CModel (fun q : nat * nat * bytes => slice (fst (fst q)) (snd (fst q)) (snd q)) (ex_intro _ (1%nat, 0%nat, []) eq_refl)
+            (fun p : bool * stdlib * keydata * N * N =>
+               let '(priv, L, kd, prefix, idreq) := p in
+               if priv then parse_jwt_ecdsa_priv L kd prefix idreq else parse_jwt_ecdsa_pub L kd prefix idreq)
+            jwt_ecdsa_parsers_np);
+  mkSite "jwt/jwtecdsa/protoserialization.go:134" "publicKeyToProto (serializer)" "k.PublicPoint()[1:], xy[:coordinateSize], xy[coordinateSize:]" KSlice
+    "no local test: a *PublicKey exists only through NewPublicKey, which validated the point with crypto/ecdh (len = 1+2c)"
+    (CLemma (fun p : bytes * Z => point_coords_go (fst p) (snd p)) (ex_intro _ ([], 0%Z) eq_refl)
+            (fun p => (0 <= snd p)%Z /\ zlen (fst p) = (1 + 2 * snd p)%Z)
+            (fun p g => point_coords_go_np _ _ (proj1 g) (proj2 g)));
   mkSite "jwt/jwt*/key.go" "computeKID" "make([]byte, 4); binary.BigEndian.PutUint32(buf, idRequirement)" KMake
-    "constant size" (CArgued "constant bounds");
+    "constant size"
+    (CArgued "constant bounds");
   mkSite "jwt/jwt*/protoserialization.go" "ParseKey" "protoKey.GetCustomKid().GetValue() (nil CustomKid)" KNilDeref
     "getters; presence tested with GetCustomKid() != nil"
-    (CModel ((forall kd prefix idreq, parse_jwt_hmac kd prefix idreq <> Panic) /\
-             (forall pss kd prefix idreq, parse_jwt_rsa_pub pss kd prefix idreq <> Panic) /\
-             forall L pss kd prefix idreq, parse_jwt_rsa_priv L pss kd prefix idreq <> Panic)
-            (conj parse_jwt_hmac_np (conj parse_jwt_rsa_pub_np parse_jwt_rsa_priv_np)));
-  (* ---------------- symmetric key types ---------------- *)
+    (CArgued "getters; has_sub in the model; gen4.go kidChoice");
   mkSite "aead/aesctrhmac/protoserialization.go (and all symmetric parsers)" "ParseKey" "protoKey.GetAesCtrKey().GetParams().GetIvSize() on nil sub-messages" KNilDeref
     "getters"
-    (CModel (forall n k, get_u32 k (get_sub n []) = 0%N /\ get_len k (get_sub n []) = [] /\
-                         get_sub k (get_sub n []) = [] /\ has_sub k (get_sub n []) = false)
-            absent_submessage_reads_as_defaults);
+    (CArgued "getters are total in the model: lemma absent_submessage_reads_as_defaults, named here, not checked by the table; the defaults (iv 0, tag 0) are then rejected by the size checks");
   mkSite "aead/*, mac/*, prf/*, daead/aessiv protoserialization.go" "ParseKey" "int(protoKey.GetParams().GetTagSize()), int(GetIvSize()), int(format.GetKeySize()) (uint32 -> int)" KIntConv
     "64-bit platform: lossless; the values are then compared with small constants / with len(key)"
-    (CLemma ((forall v, int_of_u32 v = v) /\ forall v, (2147483648 <= v <= u32_max)%Z -> (int_of_u32_32bit v < 0)%Z)
-            (conj (fun _ => eq_refl) int_of_u32_32bit_wrapped_is_negative));
+    (CArgued "integer conversion: does not panic; lossless on the 64-bit platform of the check (32-bit: lemma int_of_u32_32bit_wrapped_is_negative, named here, not checked by the table)");
   mkSite "aead/aesgcm/key.go etc." "NewKey" "keyBytes.Len() != int(parameters.KeySizeInBytes())" KIntConv
     "KeySizeInBytes was validated to be 16 / 32 (24 rejected)"
-    (CModel (forall L kd prefix idreq, parse_key L kd prefix idreq <> Panic) parse_key_np);
+    (CArgued "integer conversion of a validated small value");
   mkSite "streamingaead/aesctrhmac/protoserialization.go" "ParseKey" "int32(paramsProto.GetCiphertextSegmentSize()) (uint32 -> int32 wraps)" KIntConv
     "NewParameters: SegmentSizeInBytes < minCiphertextSegmentSize is an error, min > 0"
-    (CLemma (forall derived tag seg max_tag,
-               (0 <= seg <= u32_max)%Z -> (0 <= tag <= u32_max)%Z -> (max_tag <= 64)%Z ->
-               (derived = 16 \/ derived = 32)%Z -> (10 <= tag <= max_tag)%Z ->
-               seg_check_ctr_go derived tag seg max_tag = int32_at_least (Z.to_N seg) (Z.to_N (derived + 8 + tag + 1)))
-            seg_check_ctr_go_is_model);
+    (CArgued "integer conversion: wraps, does not panic; the comparison that follows is theorem C14_wrapping_conversions_are_rejected / lemma seg_check_ctr_go_is_model (named here, not checked by the table)");
   mkSite "streamingaead/aesctrhmac/parameters.go" "NewParameters" "int32(DerivedKeySizeInBytes + 7 + 1 + HmacTagSizeInBytes + 1) (int -> int32 wraps)" KIntConv
     "derived key size in {16, 32} and 10 <= tag <= 20/32/64 are checked BEFORE the sum is formed"
-    (CLemma (forall derived tag seg max_tag,
-               (0 <= seg <= u32_max)%Z -> (0 <= tag <= u32_max)%Z -> (max_tag <= 64)%Z ->
-               seg_check_ctr_go derived tag seg max_tag = true ->
-               (seg < 2147483648 /\ int32_of_u32 seg = seg /\ derived + 7 + 1 + tag + 1 <= seg /\ 10 <= tag <= max_tag)%Z)
-            seg_check_ctr_go_sound);
+    (CArgued "integer conversion: wraps, does not panic; the comparison that follows is theorem C14_wrapping_conversions_are_rejected / lemma seg_check_ctr_go_sound (named here, not checked by the table)");
   mkSite "streamingaead/aesgcmhkdf/protoserialization.go, parameters.go" "ParseKey / validateOpts" "int32(paramsProto.GetCiphertextSegmentSize()); int32(DerivedKeySizeInBytes + 24 + 1)" KIntConv
     "derived key size in {16, 32} checked first; SegmentSizeInBytes < minSegmentSize is an error"
-    (CLemma (forall derived seg, (0 <= seg <= u32_max)%Z -> seg_check_gcm_go derived seg = true ->
-               (seg < 2147483648 /\ derived + 24 + 1 <= seg)%Z) seg_check_gcm_go_sound);
-  mkSite "streamingaead/*/protoserialization.go" "ParseKey" "the whole bodies" KIntConv
-    "as above"
-    (CModel ((forall kd prefix idreq, parse_stream_gcm_hkdf kd prefix idreq <> Panic) /\
-             forall kd prefix idreq, parse_stream_ctr_hmac kd prefix idreq <> Panic)
-            (conj parse_stream_gcm_hkdf_np parse_stream_ctr_hmac_np));
+    (CArgued "integer conversion: wraps, does not panic; the comparison that follows is theorem C14_wrapping_conversions_are_rejected / lemma seg_check_gcm_go_sound (named here, not checked by the table)");
   mkSite "streamingaead/*/key.go" "primitive constructor" "int(params.SegmentSizeInBytes()), uint32(keyBytes.Len())" KIntConv
     "segment size > 0 after NewParameters; Len() is a length"
-    (CModel (forall L kd prefix idreq d, parse_key L kd prefix idreq = Ok d -> prim_ok L d <> Panic) parse_then_prim_np);
+    (CArgued "integer conversions of validated positive values; the model's prim_ok has no Panic constructor for the stream keys");
   mkSite "secretdata/secretdata.go" "NewBytesFromData" "bytes.Clone(data)" KStdlib
-    "total" (CArgued "identity on byte strings")
+    "total"
+    (CArgued "identity on byte strings")
 ].
 
-(* How the listed sites are covered.  "Proved" = the entry carries a theorem
-   (about the model clause that contains the site, or about the as-written
-   transcription of the site); the other three kinds carry none. *)
+(* Counts of the entries by constructor.  Only the first two kinds carry a
+   checked no-panic fact (of the fixed shapes above); the other three carry
+   none.  The numbers say nothing about the completeness of the list. *)
 Theorem panic_site_coverage_counts :
-  length panic_sites = 71%nat /\
-  count by_model_theorem panic_sites = 31%nat /\
-  count by_site_lemma panic_sites = 15%nat /\
-  count argued_only panic_sites = 17%nat /\
+  length panic_sites = 72%nat /\
+  count by_model_theorem panic_sites = 10%nat /\
+  count by_site_lemma panic_sites = 11%nat /\
+  count argued_only panic_sites = 43%nat /\
   count is_stdlib panic_sites = 6%nat /\
   count is_harness_only panic_sites = 2%nat.
 Proof. vm_compute. repeat split. Qed.
